@@ -84,6 +84,24 @@ class MH(mailbox.MH):
 
     ####################################################################
     #
+    def iterkeys(self):  # type: ignore[no-untyped-def]
+        """
+        Return an iterator over keys.
+
+        Only files are messages: a sub-folder whose name is just digits (like
+        `archive/2024`) is not a message of its superior mailbox.
+        """
+        with os.scandir(self._path) as entries:
+            return iter(
+                sorted(
+                    int(entry.name)
+                    for entry in entries
+                    if entry.name.isdigit() and not entry.is_dir()
+                )
+            )
+
+    ####################################################################
+    #
     def get_folder(self, folder: "StrPath") -> "MH":
         """Return an MH instance for the named folder."""
         return MH(
